@@ -96,6 +96,7 @@ def run_driver(exe, input_text=None, args=(), timeout=600, env=None, cwd=None):
 
 TLC_JAR = "/opt/veriftools/tla/tla2tools.jar:/opt/veriftools/tla/CommunityModules-deps.jar"
 _tlc_seq = [0]
+_tlc_counter = __import__("itertools").count(1)   # next() is atomic: vlib.tlc may be called from several threads (C10)
 
 
 class TlcResult:
@@ -120,8 +121,8 @@ def tlc(spec_dir, module, cfg=None, workers=None, timeout=900, env=None, simulat
     """Run TLC on spec/<spec_dir>/<module>.tla with <cfg>.  Returns TlcResult.
     Raises InfraError for anything that is not 'no error' or a property violation."""
     sdir = spec_dir if os.path.isabs(spec_dir) else os.path.join(SPEC, spec_dir)
-    _tlc_seq[0] += 1
-    meta = os.path.join(SCRATCH, "tlc-%d-%d" % (os.getpid(), _tlc_seq[0]))
+    seq = _tlc_seq[0] = next(_tlc_counter)
+    meta = os.path.join(SCRATCH, "tlc-%d-%d" % (os.getpid(), seq))
     os.makedirs(meta, exist_ok=True)
     jopts = ["-XX:+UseParallelGC", "-Xmx" + heap]
     if dfs_queue:
